@@ -328,7 +328,7 @@ class cpr_drs {
                 }
             }
 
-            App->set_nonzeros(App->scan_row_sizes());
+            if (get_app) App->set_nonzeros(App->scan_row_sizes());
 
             return std::make_tuple(fpp, App);
         }
